@@ -221,22 +221,22 @@ theorem symlink_cases (h : NRoots bk hk dd) (hk' : PKey k) (t : Path) :
     | error e =>
       left
       refine refused_of (by intro n e; cases e) ⟨e, ?_⟩
-      simp only [HiddenFS.translate, hguard, hhid, bind, Except.bind]
+      simp only [HiddenFS.translate, clean_kp hk', hguard, hhid, bind, Except.bind]
     | ok b =>
       cases b with
       | true =>
         left
         refine refused_of (by intro n e; cases e) ⟨.hiddenPerm, ?_⟩
-        simp only [HiddenFS.translate, hguard, hhid, bind, Except.bind]
+        simp only [HiddenFS.translate, clean_kp hk', hguard, hhid, bind, Except.bind]
       | false =>
         by_cases hh : hk <+: k
         · left
           refine refused_of (by intro n e; cases e) ⟨.hiddenPerm, ?_⟩
-          simp only [HiddenFS.translate, hguard_of_visible _ hhid, hguard_hid h hk' hh, bind, Except.bind]
+          simp only [HiddenFS.translate, clean_kp hk', hguard_of_visible _ hhid, hguard_hid h hk' hh, bind, Except.bind]
         · right
           refine ⟨hh, t, ?_, fun hct => ⟨hct, rfl⟩⟩
           refine fwd_base h (by intro n e; cases e) ?_
-          simp only [HiddenFS.translate, hguard_of_visible _ hhid, hguard_vis h hk' hh, bind, Except.bind, pure,
+          simp only [HiddenFS.translate, clean_kp hk', hguard_of_visible _ hhid, hguard_vis h hk' hh, bind, Except.bind, pure,
             Except.pure]
           rfl
   | backup =>
@@ -331,7 +331,7 @@ theorem nl_symlink_ok {t : Path} (h : NRoots bk hk dd) (hg : NLGood bk hk dd m) 
     have hvis : ¬ NHid hk .base k := hh
     have hf : Fwd bk hk dd .base (.symlink t (kp k)) (.symlink t (kp k)) := by
       refine fwd_base h (by intro n e; cases e) ?_
-      simp only [HiddenFS.translate, hguard_of_visible _ hhid, hguard_vis h hk' hh, bind, Except.bind, pure,
+      simp only [HiddenFS.translate, clean_kp hk', hguard_of_visible _ hhid, hguard_vis h hk' hh, bind, Except.bind, pure,
         Except.pure]
     obtain ⟨m1, hc⟩ := L.os_symlink_ok h.r1 hg.os hk' hct hlok (nl_none_vis (dd := dd) hvis hv)
       (nl_parentDir (s := .base) hvis hp)
